@@ -67,6 +67,20 @@ def configs(tier):
                             continue    # quick: the pairing matrix only for the spellings that change the default
                         for gen in (True, False):
                             out.append({'n': n, 'signed': signed, 'end': end, 'cdef': cdef, 'pos': pos, 'gen': gen})
+    # the class-wide default spelled 'local' / 'network'
+    for n in widths:
+        for signed in (False, True):
+            for cdef in ('local', 'network'):
+                for gen in (True, False):
+                    out.append({'n': n, 'signed': signed, 'end': None, 'cdef': cdef, 'pos': 'alone', 'gen': gen})
+                    out.append({'n': n, 'signed': signed, 'end': None, 'cdef': cdef, 'pos': 'first-opp', 'gen': gen})
+    # carriers: the integer is the element of a list, the subject of a condition, positioned, or lives in a referenced packet
+    for n in ([1, 2, 3, 4, 8] if tier == 'quick' else [1, 2, 3, 4, 5, 8, 9]):
+        for signed in (False, True):
+            for end, cdef in ((None, None), ('little', None), (None, 'little'), ('big', 'little'), ('local', None), (None, 'local')):
+                for car in CARRIERS:
+                    for gen in (True, False):
+                        out.append({'n': n, 'signed': signed, 'end': end, 'cdef': cdef, 'pos': 'C' + car, 'gen': gen})
     # triples: vectorised runs are regrouped by byte order, the grouping depends on BOTH neighbours
     for n in ([1, 2, 3, 4] if tier == 'quick' else [1, 2, 3, 4, 5, 8]):
         for signed in (False, True):
@@ -76,6 +90,23 @@ def configs(tier):
                     if tier == 'thorough':
                         out.append({'n': n, 'signed': signed, 'end': end, 'cdef': cdef, 'pos': 'T' + tr, 'gen': False})
     return out
+
+
+# name -> (field lines with %s for the Int, bytes before the pattern, bytes after, read expression, keyword arguments with V for the value)
+CARRIERS = {
+    'seq': (['x = %s.repeated(1)'], b'', b'', 'p.x[0]', 'dict(x=[V])'),
+    'seq2': (['x = %s.repeated(2)'], 'Z', b'', 'p.x[1]', 'dict(x=[0, V])'),
+    'seq-al1': (['x = %s.repeated(2, aligned=1)'], 'Z', b'', 'p.x[1]', 'dict(x=[0, V])'),
+    'seq-al4': (['x = %s.repeated(1, aligned=4)'], b'', b'', 'p.x[0]', 'dict(x=[V])'),
+    'seq-until': (['x = %s.repeated(until=lambda **k: True)'], b'', b'', 'p.x[0]', 'dict(x=[V])'),
+    'opt': (['f = Int(1)', 'x = %s.when(f)'], b'\x01', b'', 'p.x', 'dict(f=1, x=V)'),
+    'at': (['x = %s.at(1)'], b'.', b'', 'p.x', 'dict(x=V)'),
+    'aligned': (['f = Int(1)', 'x = %s.aligned(2)'], b'\x07.', b'', 'p.x', 'dict(f=7, x=V)'),
+    'ref': (['s = Ref(Sub)'], b'', b'', 'p.s.x', 'dict(s=m.Sub(x=V))'),
+    'seq-ref': (['s = Ref(Sub).repeated(1)'], b'', b'', 'p.s[0].x', 'dict(s=[m.Sub(x=V)])'),
+    'opt-ref': (['f = Int(1)', 's = Ref(Sub).when(f)'], b'\x01', b'', 'p.s.x', 'dict(f=1, s=m.Sub(x=V))'),
+    'data-after': (['x = %s', 'd = Data(x & 1)'], b'', 'D', 'p.x', 'dict(x=V, d=b"q" * (V & 1))'),
+}
 
 
 def source(cfg):
@@ -88,7 +119,18 @@ def source(cfg):
         args.append('endianness=%r' % end)
     me = 'x = Int(%s)' % ', '.join(args)
     pos = cfg['pos']
-    if pos.startswith('T'):
+    sub = ''
+    if pos.startswith('C'):
+        intsrc = me[4:]
+        lines = [l % intsrc if '%s' in l else l for l in CARRIERS[pos[1:]][0]]
+        if 'Ref(Sub)' in lines[-1]:
+            o = {}
+            if cfg['cdef'] is not None:
+                o['endianness'] = cfg['cdef']
+            if not cfg['gen']:
+                o.update(mk.GEN_ALL_OFF)
+            sub = mk.class_src('Sub', [me], o) + '\n\n'
+    elif pos.startswith('T'):
         lines = triple_layout(cfg, me)[0]
     elif pos == 'alone':
         lines = [me]
@@ -102,7 +144,37 @@ def source(cfg):
         opts['endianness'] = cfg['cdef']
     if not cfg['gen']:
         opts.update(mk.GEN_ALL_OFF)
-    return mk.class_src('K', lines, opts)
+    return sub + mk.class_src('K', lines, opts)
+
+
+def check_carrier(cfg, m, st, viol, big):
+    n, signed = cfg['n'], cfg['signed']
+    lines, pre, post, read, kws = CARRIERS[cfg['pos'][1:]]
+    K = m.K
+    pats = decode_patterns(n, False) if n > 1 else [bytes([a]) for a in range(256)]
+    if n > 1:
+        pats = pats[::5] + [b'\x01' + b'\x00' * (n - 1), b'\x00' * (n - 1) + b'\x01', b'\x80' + b'\x00' * (n - 1), b'\xff' * n, bytes(range(1, n + 1))]
+    for pat in pats:
+        exp = ref_decode(pat, signed, big)
+        raw = (b'\x00' * n if pre == 'Z' else pre) + pat + ((b'q' * (exp & 1)) if post == 'D' else post)
+        st.inc('evaluations')
+        try:
+            p = K.unpack(raw)
+            got = eval(read, {'p': p})
+        except Exception as e:
+            viol('decode-raises (carried)', 'unpack(%r) raised %r' % (raw, e), {'op': 'decode', 'raw': raw})
+            return
+        if got != exp or type(got) is not int:
+            viol('decode-value (carried)', 'unpack(%r): %s = %r, expected %r' % (raw, read, got, exp), {'op': 'decode', 'raw': raw})
+            return
+        try:
+            out = K(**eval(kws, {'V': exp, 'm': m})).pack()
+        except Exception as e:
+            out = e
+        if out != raw:
+            viol('encode-bytes (carried)', 'K(**%s).pack() with V=%r = %r, expected %r' % (kws, exp, out, raw), {'op': 'encode', 'value': exp})
+            return
+    st.add('outcomes', ('c', n, signed, big, cfg['pos']))
 
 
 def triple_layout(cfg, me=None):
@@ -171,8 +243,12 @@ def check_config(cfg, st, full2):
                    mk.HEADER + src)
 
     with mk.World() as w:
-        K = w.module(src).K
+        m = w.module(src)
+        K = m.K
         st.inc('programs')
+        if pos.startswith('C'):
+            check_carrier(cfg, m, st, viol, big)
+            return
         if pos.startswith('T'):
             check_triple(cfg, K, st, viol, big)
             return
